@@ -10,7 +10,7 @@ SPEC = dict(
         "drop time measured in wheel ticks since the last Set; window [floor(0.95e), floor(1.05e)] ticks",
     ],
     runs=[
-        dict(pkg="./lib/collection", run="^TestVerifC17Model", timeout=300, timeout_thorough=3000),
+        dict(pkg="./lib/collection", run="^TestVerifC17(Model|SubTickAndSharedOptions)", timeout=300, timeout_thorough=3000),
         dict(pkg="./lib/collection", run="^TestVerifC17.*Race$", race=True, timeout=300, timeout_thorough=3000),
     ],
 )
